@@ -52,6 +52,7 @@ type PState struct {
 	// PATH inlining of new helper functions (Ctx.IsNew): parameter bindings, results of the
 	// calls already walked through, and the return stack
 	params  map[*ssa.Parameter]ssa.Value
+	fvars   map[*ssa.FreeVar]ssa.Value
 	callres map[*ssa.Call][]ssa.Value
 	stack   []inlFrame
 }
@@ -94,6 +95,12 @@ func (p *PState) clone() *PState {
 		q.params = make(map[*ssa.Parameter]ssa.Value, len(p.params))
 		for k, v := range p.params {
 			q.params[k] = v
+		}
+	}
+	if len(p.fvars) > 0 {
+		q.fvars = make(map[*ssa.FreeVar]ssa.Value, len(p.fvars))
+		for k, v := range p.fvars {
+			q.fvars[k] = v
 		}
 	}
 	if len(p.callres) > 0 {
@@ -431,13 +438,23 @@ func (w *Walker) instrs(b *ssa.BasicBlock, p *PState, start int) {
 			return
 		}
 		if call, ok := ins.(*ssa.Call); ok && !w.NoInline {
-			if cal := call.Call.StaticCallee(); cal != nil && w.C.IsNew(cal) && len(p.stack) < 4 && !onStack(p, cal) && len(cal.Params) == len(call.Call.Args) {
+			if cal := call.Call.StaticCallee(); cal != nil && (w.C.IsNew(cal) || w.C.tinyPure(cal)) && len(p.stack) < 4 && !onStack(p, cal) && len(cal.Params) == len(call.Call.Args) {
 				// step into the helper: bind parameters, forget what a previous walk through it established
 				if p.params == nil {
 					p.params = map[*ssa.Parameter]ssa.Value{}
 				}
 				for j, prm := range cal.Params {
 					p.params[prm] = p.Resolve(call.Call.Args[j])
+				}
+				if mc, isMC := call.Call.Value.(*ssa.MakeClosure); isMC {
+					if p.fvars == nil {
+						p.fvars = map[*ssa.FreeVar]ssa.Value{}
+					}
+					for j, fv := range cal.FreeVars {
+						if j < len(mc.Bindings) {
+							p.fvars[fv] = p.Resolve(mc.Bindings[j])
+						}
+					}
 				}
 				if w.EnterInline != nil {
 					w.EnterInline(p, cal)
@@ -553,6 +570,12 @@ func (p *PState) Resolve(v ssa.Value) ssa.Value {
 			return cv
 		}
 		switch x := v.(type) {
+		case *ssa.FreeVar:
+			if r, ok := p.fvars[x]; ok && r != v {
+				v = r
+				continue
+			}
+			return v
 		case *ssa.Parameter:
 			if r, ok := p.params[x]; ok && r != v {
 				v = r
@@ -582,7 +605,11 @@ func (p *PState) Resolve(v ssa.Value) ssa.Value {
 			return v
 		case *ssa.UnOp:
 			if x.Op == token.MUL {
-				if a, ok := x.X.(*ssa.Alloc); ok {
+				addr := x.X
+				if fv, isFV := addr.(*ssa.FreeVar); isFV {
+					addr = p.Resolve(fv) // captured variable of an inlined closure
+				}
+				if a, ok := addr.(*ssa.Alloc); ok {
 					if r, ok := p.allocs[a]; ok {
 						v = r
 						continue
@@ -1351,4 +1378,23 @@ func onStack(p *PState, fn *ssa.Function) bool {
 		}
 	}
 	return false
+}
+
+// tinyPure: a one-block module function without calls, stores or allocation that returns a
+// boolean built from comparisons (EOS(): r.cstate == stop). The walker steps through it so
+// that `if r.EOS()` and `if r.cstate == stop` are the same test. (Getters returning a field
+// are handled by stripConv; they stay visible as calls.)
+func (c *Ctx) tinyPure(fn *ssa.Function) bool {
+	if fn == nil || len(fn.Blocks) != 1 || !c.InModule(fn) || fn.Signature.Results().Len() != 1 || !isBoolType(fn.Signature.Results().At(0).Type()) {
+		return false
+	}
+	for _, ins := range fn.Blocks[0].Instrs {
+		switch x := ins.(type) {
+		case *ssa.FieldAddr, *ssa.UnOp, *ssa.BinOp, *ssa.Convert, *ssa.Return, *ssa.DebugRef:
+			_ = x
+		default:
+			return false
+		}
+	}
+	return true
 }
